@@ -1217,6 +1217,46 @@ pub fn mono(genv: GlobalTypeEnv, file: core::File) -> (MonoFile, GlobalMonoEnv) 
         });
     }
 
+    // Non-generic definitions can still mention generic applications in their
+    // field types (struct S { f: Option[int32] }); collapse those as well.
+    let plain_enums: Vec<EnumDef> = m
+        .enum_base
+        .values()
+        .filter(|def| def.generics.is_empty())
+        .cloned()
+        .collect();
+    for def in plain_enums {
+        let variants: Vec<(TastIdent, Vec<Ty>)> = def
+            .variants
+            .iter()
+            .map(|(vname, vfields)| {
+                (
+                    vname.clone(),
+                    vfields.iter().map(|t| m.collapse_type_apps(t)).collect(),
+                )
+            })
+            .collect();
+        if let Some(slot) = m.monoenv.genv.type_env.enums.get_mut(&def.name) {
+            slot.variants = variants;
+        }
+    }
+    let plain_structs: Vec<StructDef> = m
+        .struct_base
+        .values()
+        .filter(|def| def.generics.is_empty())
+        .cloned()
+        .collect();
+    for def in plain_structs {
+        let fields: Vec<(TastIdent, Ty)> = def
+            .fields
+            .iter()
+            .map(|(fname, fty)| (fname.clone(), m.collapse_type_apps(fty)))
+            .collect();
+        if let Some(slot) = m.monoenv.struct_def_mut(&def.name) {
+            slot.fields = fields;
+        }
+    }
+
     // Drop all generic enum defs to avoid Go backend panics
     m.monoenv.retain_enums(|_n, def| def.generics.is_empty());
     m.monoenv.retain_structs(|_n, def| def.generics.is_empty());
